@@ -79,6 +79,9 @@ pub struct Stats {
     pub scenarios: u64,
     pub wire_events: u64,
     pub other_prop_findings: u64,
+    pub max_dev: u32,
+    pub bounded_parts: u32,
+    pub unbounded_parts: u32,
 }
 
 impl Stats {
@@ -93,12 +96,26 @@ impl Stats {
         for (k, v) in o.execs_per_level {
             *self.execs_per_level.entry(k).or_default() += v;
         }
-        self.level_completed = match (self.level_completed, o.level_completed) {
-            (Some(a), Some(b)) => Some(a.min(b)),
-            (None, b) if self.scenarios == 0 => b,
-            (a, _) if o.scenarios == 0 => a,
-            _ => None,
-        };
+        if o.scenarios > 0 && o.max_dev > 0 {
+            // part with schedule exploration: the claimed bound is the minimum over such parts
+            self.level_completed = if self.bounded_parts == 0 {
+                o.level_completed
+            } else {
+                match (self.level_completed, o.level_completed) {
+                    (Some(a), Some(b)) => Some(a.min(b)),
+                    _ => None,
+                }
+            };
+            self.bounded_parts += 1;
+        } else if o.scenarios > 0 && self.bounded_parts == 0 && self.unbounded_parts == 0 {
+            self.level_completed = o.level_completed;
+        }
+        if o.scenarios > 0 && o.max_dev == 0 {
+            self.unbounded_parts += 1;
+            if o.level_completed.is_none() && self.bounded_parts == 0 {
+                self.level_completed = None;
+            }
+        }
         self.caps_hit.extend(o.caps_hit);
         self.determinism_replays += o.determinism_replays;
         self.machinery_errors.extend(o.machinery_errors);
@@ -412,6 +429,7 @@ pub fn explore(prop: &str, scns: Vec<Arc<dyn Scenario>>, params: Params, known: 
     }
     let mut stats = std::mem::take(&mut *sh.stats.lock().unwrap());
     stats.scenarios = n_scn as u64;
+    stats.max_dev = params.max_dev;
     let capped = sh.capped.load(Ordering::Relaxed);
     let stopped = sh.stop.load(Ordering::Relaxed);
     if capped {
